@@ -17,7 +17,8 @@ VARIABLES sc, exp
 
 C(t, a) == [t |-> t, a |-> a]
 Calls == {C("dA", ""), C("dB", ""), C("eA", ""), C("eB", ""), C("cV", "one"), C("cV", "two"),
-          C("sV", "one"), C("sV", "two"), C("mR", "l1"), C("mR", "l2"), C("fV", "s1"), C("fV", "s2"), C("dF", "one"), C("dF", "two")}
+          C("sV", "one"), C("sV", "two"), C("mR", "l1"), C("mR", "l2"), C("fV", "s1"), C("fV", "s2"), C("dF", "one"), C("dF", "two"),
+          C("gT", ""), C("gU", ""), C("gS", ""), C("gR", "")}
 
 Items(a) == CASE a = "l1" -> <<"1", "2">> [] a = "l2" -> <<"x">> [] a = "s1" -> <<"p", "q">> [] a = "s2" -> <<"r">> [] OTHER -> <<>>
 
@@ -31,6 +32,8 @@ Lines(c) ==
     [] c.t = "sV" -> <<"sV|" \o c.a>>                \* D: {sh: 'echo {{.V}}'}
     [] c.t = "mR" -> [i \in 1..Len(Items(c.a)) |-> "mR|" \o Items(c.a)[i]]   \* for: matrix: {X: {ref: .L}}
     [] c.t = "dF" -> <<"dF|work|" \o c.a, "dF|deferred|" \o c.a>>   \* a command and a deferred command printing the call variable
+    [] c.t \in {"gT", "gU"} -> <<c.t \o "|g-" \o c.t>>   \* a Taskfile-level variable 'g-{{.TASK}}': per task, though defined once
+    [] c.t \in {"gS", "gR"} -> <<c.t \o "|s-" \o c.t>>   \* a Taskfile-level sh: variable whose text mentions {{.TASK}}
     [] c.t = "fV" -> [i \in 1..Len(Items(c.a)) |-> "fV|" \o Items(c.a)[i]]   \* for: {var: S}
 
 Prefixes == {<<>>} \cup {<<c>> : c \in Calls}
